@@ -18,13 +18,13 @@ type c06Case struct {
 	Kind string      `json:"kind"` // invariants | movement
 	Plan []sess.Step `json:"plan"`
 	// movement
-	Cmd    string `json:"cmd,omitempty"`
-	Keymap string `json:"keymap,omitempty"` // keymap in which the probe key is bound
-	ArgKey string `json:"argkey,omitempty"` // argument key the command reads ("" = none)
-	NumArg string `json:"numarg,omitempty"`
-	Motion string `json:"motion,omitempty"` // for vi-yank-to: the motion keys
-	Comp   bool   `json:"comp"`
-	Multi  bool   `json:"multi"`
+	Cmd    string   `json:"cmd,omitempty"`
+	Keymap string   `json:"keymap,omitempty"` // keymap in which the probe key is bound
+	ArgKey string   `json:"argkey,omitempty"` // argument key the command reads ("" = none)
+	NumArg string   `json:"numarg,omitempty"`
+	Motion string   `json:"motion,omitempty"` // for vi-yank-to: the motion keys
+	Comp   bool     `json:"comp"`
+	Multi  bool     `json:"multi"`
 	Bound  []string `json:"bound,omitempty"` // invariants: commands without a default binding, bound to C-x C-z a, b, ...
 }
 
